@@ -72,7 +72,14 @@ def execute(case):
     snap = programs._vec_snapshot(vec)
     snap_o = programs._vec_snapshot(other)
     try:
-        if m == "concat": out = vec.concat(other)
+        if m == "concat":
+            # also the degenerate forms: nothing to add, an empty argument, an empty receiver (the result must still be new memory)
+            form = case["seed"] % 4
+            res.cls(f"concat:form{form}")
+            if form == 0: out = vec.concat(other)
+            elif form == 1: out = vec.concat()
+            elif form == 2: out = vec.concat(di.Vector(gen.np_column(kind, [])))
+            else: out = di.Vector(gen.np_column(kind, [])).concat(other)
         elif m == "map": out = vec.map(lambda x: x)
         elif m == "replace_na":
             fill = vec.na_value if len(values) == 0 else np.asarray(vec)[0]
